@@ -168,6 +168,12 @@ type Sched struct {
 
 var cur *Sched
 
+// TeardownHook, when set, is called at the beginning (true) and at the end (false) of the phase
+// in which the goroutines of a finished execution are unwound. Deferred functions of the library
+// run there with locking switched off, so what a race detector says during that phase is an
+// artefact of the harness and must be discarded (see props/racemon.go).
+var TeardownHook func(begin bool)
+
 // endSync gives the controller a real happens-before edge from the end of every controlled thread
 // (so that harness code may read what the threads wrote once Run has returned). It is touched only
 // at thread exit, hence it orders nothing inside an execution.
@@ -206,6 +212,9 @@ func Run(cfg Config, body func()) *Result {
 	t0.unpark()
 	s.ctl.park()
 	// the execution has ended (driver finished, deadlock, horizon or crash): tear down.
+	if TeardownHook != nil {
+		TeardownHook(true)
+	}
 	s.aborting = true
 	for i := 0; i < len(s.threads); i++ { // threads slice cannot grow in abort mode
 		t := s.threads[i]
@@ -217,6 +226,9 @@ func Run(cfg Config, body func()) *Result {
 	}
 	endSync.Lock()
 	endSync.Unlock()
+	if TeardownHook != nil {
+		TeardownHook(false)
+	}
 	s.res.Trace = s.trace
 	s.res.Steps = s.steps
 	s.res.Threads = len(s.threads)
